@@ -35,7 +35,7 @@ def run(ctx):
                          "of a third cluster), and the whole handler stack (by uuid, cluster_id, multi-cluster uuid query, collection by PDH, "
                          "container request for another cluster with token origin x user origin x scopes); federation.Conn.ContainerRequestCreate "
                          "(token issued here / elsewhere / legacy / unknown x user origin x scopes x explicit runtime_token x target) and other Conn "
-                         "methods over real rpc.Conn remotes; keepstore remoteClient and remoteProxy.Get with a recording keep client; distinct by "
+                         "methods over real rpc.Conn remotes; keepstore remoteClient and remoteProxy.Get with a recording keep client, alone and as two overlapping requests for one remote (B runs while A's first attempt is at the remote; B unsaltable or not); distinct by "
                          "hash of the case term; non-trivial = SaltToken/remoteClient/Get/ContainerRequestCreate case, provider call with credentials "
                          "and at least one token, legacy request carrying a secret (stack: and sent to a remote), Conn method that sent a request",
                     assumptions=["HMAC-SHA1 is computed by the Gallina implementation lib/Sha1.v (validated by this correspondence)",
